@@ -38,7 +38,10 @@ CONSTANTS Ops,       \* operator names explored
           Terms,     \* subset of {"C","E","U"}: how the source ends (U = never)
           AuxLen,    \* aux timeline: 0..AuxLen elements
           SpecKs,    \* per-element delay/throttle/timeout observables: first notification kinds, subset of {"N","C","E","U"}
-                     \* (U = never notifies), and "X": the mapper function raises instead of returning an observable
+                     \* (U = never notifies), and "X": the mapper function raises instead of returning an observable,
+                     \* and "S": the observable fires SYNCHRONOUSLY, inside the subscribe call the operator makes on it (a
+                     \* BehaviorSubject / ReplaySubject, a value delivered on the immediate scheduler ...): no hop, the reaction
+                     \* belongs to the arrival of the element itself (offered to throttle_with_mapper only)
           SpecTs,    \* ... and its offset
           Hz,        \* horizon: the run is observed through instant Hz (inclusive)
           DispOps,   \* for these operators the dispose instant ranges over 0..Hz-1 as well as "never" ...
@@ -47,12 +50,13 @@ CONSTANTS Ops,       \* operator names explored
           EchoKs     \* on receiving its k-th element (k in EchoKs), synchronously pushes ONE more element into the (hot) source
 
 VARIABLES op, par, src, term, tT, hot, aux, aterm, aT, dsp, fbk, ctk,   \* the scenario (ctk: resolution of a silence of the statement)
+          fbx,    \* what the sink feeds back: "N" one more element; "E" / "C": it TERMINATES the (hot) source from inside its on_next
           now, i, subAt, closed, unsub, j, swAt, tm, st, out, done,
           echoAt, \* instant at which the sink pushed the feedback element (index n + 1) into the source; -1: not (yet)
           amb     \* history: some step so far had a choice between lanes (a simulated behaviour is then ONE of several)
 
-scnvars == <<op, par, src, term, tT, hot, aux, aterm, aT, dsp, fbk, ctk>>
-vars == <<op, par, src, term, tT, hot, aux, aterm, aT, dsp, fbk, ctk, now, i, subAt, closed, unsub, j, swAt, tm, st, out, done, echoAt, amb>>
+scnvars == <<op, par, src, term, tT, hot, aux, aterm, aT, dsp, fbk, ctk, fbx>>
+vars == <<op, par, src, term, tT, hot, aux, aterm, aT, dsp, fbk, ctk, fbx, now, i, subAt, closed, unsub, j, swAt, tm, st, out, done, echoAt, amb>>
 
 Max2(a, b) == IF a >= b THEN a ELSE b
 Min2(a, b) == IF a <= b THEN a ELSE b
@@ -80,7 +84,9 @@ MapOps   == {"delay_with_mapper", "delay_with_mapper_sub", "throttle_with_mapper
 Fifo(o)  == o \in DelayOps \cup DSubOps
 
 MinSpecT == CHOOSE d \in SpecTs : \A e \in SpecTs : d <= e
-Specs    == {sp \in [k : SpecKs, t : SpecTs] : sp.k \in {"U", "X"} => sp.t = MinSpecT}   \* no offset to speak of for U and X
+Specs    == {sp \in [k : SpecKs \ {"S"}, t : SpecTs] : sp.k \in {"U", "X"} => sp.t = MinSpecT}   \* no offset to speak of for U and X
+SyncSpec == [k |-> "S", t |-> 0]
+TSpecs   == Specs \cup (IF "S" \in SpecKs THEN {SyncSpec} ELSE {})     \* throttle observables: also the synchronous one
 FSpecs   == {sp \in Specs : sp.k # "X"}          \* the subscription delay / first timeout is an observable, not a mapper
 AbsDs    == (0 - AbsLo)..MaxD
 PosDs    == Ds \ {0}
@@ -91,7 +97,8 @@ ParamsOf(o, len) ==
                                             -> [d : Ds]
     [] o \in {"throttle_first", "sample"}   -> [d : PosDs]
     [] o \in AbsOps \cup {"timeout_abs_other"} -> [d : AbsDs]
-    [] o \in {"delay_with_mapper", "throttle_with_mapper"} -> [m : [1..len -> Specs]]
+    [] o = "delay_with_mapper"              -> [m : [1..len -> Specs]]
+    [] o = "throttle_with_mapper"           -> [m : [1..len -> TSpecs]]
     [] o \in {"delay_with_mapper_sub", "timeout_with_mapper", "timeout_with_mapper_other"}
                                             -> [m : [1..len -> Specs], f : FSpecs]
     [] OTHER                                -> {[z |-> 0]}
@@ -141,8 +148,11 @@ Nx(o, p, s, t0, t, ix) ==
     [] o = "timestamp"     -> R(s, <<N(ix, t)>>, FALSE, t0, "")
     [] o = "time_interval" -> R([s EXCEPT !.a = t], <<N(ix, t - s.a)>>, FALSE, t0, "")
     [] o = "debounce"      -> R([s EXCEPT !.a = ix], <<>>, FALSE, <<T(t + D, "db", ix)>>, "")
-    [] o = "throttle_with_mapper" -> IF p.m[ix].k = "X" THEN R(s, <<Er("fn")>>, TRUE, <<>>, "")
-                                     ELSE R([s EXCEPT !.a = ix], <<>>, FALSE, SpecTimer(p.m[ix], t, "db", "dlerr", ix), "")
+    \* a throttle observable that fires inside its own subscription: the element is pending and its throttle fires - emitted
+    \* there and then (the superseded element's timer is cancelled as for every arrival)
+    [] o = "throttle_with_mapper" -> CASE p.m[ix].k = "X" -> R(s, <<Er("fn")>>, TRUE, <<>>, "")
+                                       [] p.m[ix].k = "S" -> R([s EXCEPT !.a = 0], <<N(ix, 0)>>, FALSE, <<>>, "")
+                                       [] OTHER -> R([s EXCEPT !.a = ix], <<>>, FALSE, SpecTimer(p.m[ix], t, "db", "dlerr", ix), "")
     [] o = "throttle_first" -> IF ~s.b \/ t - s.a >= D THEN R([s EXCEPT !.a = t, !.b = TRUE], <<N(ix, 0)>>, FALSE, t0, "")
                                ELSE R(s, <<>>, FALSE, t0, "")
     [] o \in {"sample", "sample_obs"} -> R([s EXCEPT !.a = ix], <<>>, FALSE, t0, "")
@@ -213,8 +223,14 @@ Init == /\ op \in Ops
         /\ tT \in (IF term = "U" THEN {0} ELSE LastOf(src, Lo)..TOf(op))
         \* feedback on timelines that leave room for one more element (which needs its own throttle-observable spec);
         \* not combined with the dispose dimension
-        /\ fbk \in (IF op \in EchoOps /\ Len(src) < LenOf(op) THEN EchoKs ELSE {}) \cup {0}
+        \* (delay: what is fed back is the source's terminal, which needs no room; k-th delivery: there must be one)
+        /\ fbk \in (IF op \in EchoOps /\ (IF op \in DelayOps THEN TRUE ELSE Len(src) < LenOf(op))
+                    THEN {k \in EchoKs : op \in DelayOps => k <= Len(src)} ELSE {}) \cup {0}
+        /\ fbx \in (IF fbk > 0 /\ op \in DelayOps THEN {"E", "C"} ELSE {"N"})
         /\ par \in ParamsOf(op, Len(src) + (IF fbk > 0 /\ op \in MapOps THEN 1 ELSE 0))
+        \* the feedback dimension counts emissions driven by a timer lane: with it only the fed-back element itself may have a
+        \* synchronously firing throttle observable (an emission made inside the source's own on_next is not a feedback point here)
+        /\ (fbk > 0 /\ op = "throttle_with_mapper") => \A ix \in 1..Len(src) : par.m[ix].k # "S"
         /\ hot \in (IF op \in HotOps THEN BOOLEAN ELSE {FALSE})
         \* sampler timelines start at 1; fallback timelines are cold and may start at offset 0
         /\ aux \in (IF op = "sample_obs" THEN TimeSeqs(AuxLen, 1, TOf(op)) ELSE IF op \in FbOps THEN TimeSeqs(AuxLen, 0, TOf(op)) ELSE {<<>>})
@@ -251,7 +267,8 @@ EchoHit(r) == /\ fbk > 0 /\ echoAt < 0 /\ ~closed /\ subAt >= 0 /\ ~r.fin
               /\ \E h \in 1..Len(r.em) : r.em[h].k = "N"
               /\ Len(SelectSeq(out, LAMBDA x : x.k = "N")) + 1 = fbk
 WithEcho(r, t) == IF EchoHit(r)
-                  THEN LET r2 == Nx(op, par, r.st, r.tm, t, n + 1) IN [r EXCEPT !.st = r2.st, !.tm = r2.tm, !.em = r.em \o r2.em, !.fin = r2.fin]
+                  THEN LET r2 == IF fbx = "N" THEN Nx(op, par, r.st, r.tm, t, n + 1) ELSE Tm(op, par, r.st, r.tm, t, fbx)
+                       IN [r EXCEPT !.st = r2.st, !.tm = r2.tm, !.em = r.em \o r2.em, !.fin = r2.fin]
                   ELSE r
 
 FireSrc(md) ==
@@ -292,8 +309,9 @@ FireTimer(md) == \E h \in 1..Len(tm) :
               /\ echoAt' = IF EchoHit(r0) THEN md ELSE echoAt
               /\ subAt' = IF r.ctl = "sub" THEN md ELSE subAt
               /\ swAt' = IF r.ctl = "switch" THEN md ELSE swAt
-              /\ closed' = (closed \/ r.fin \/ r.ctl = "switch")
-              /\ unsub' = IF ~closed /\ subAt >= 0 /\ (r.fin \/ r.ctl = "switch") THEN md ELSE unsub
+              \* (a terminal fed back by the sink ends the source there and then)
+              /\ closed' = (closed \/ r.fin \/ r.ctl = "switch" \/ (EchoHit(r0) /\ fbx # "N"))
+              /\ unsub' = IF ~closed /\ subAt >= 0 /\ (r.fin \/ r.ctl = "switch" \/ (EchoHit(r0) /\ fbx # "N")) THEN md ELSE unsub
            /\ UNCHANGED <<i, j>> /\ UNCHANGED scnvars
 
 Dispose(md) ==
@@ -444,6 +462,9 @@ RefThrottleMap ==
               [] term = "C" -> ix \in EmSet
               [] OTHER -> (ix \in EmSet) = fin(ix)
   /\ \A h \in 1..mN : OutN[h].t = (IF OutN[h].i = n /\ term = "C" THEN Min2(tT, due(n)) ELSE due(OutN[h].i))
+  \* a throttle observable that fires synchronously, while it is being subscribed, fires before anything newer can arrive: no
+  \* race, not even with events of the same instant - the element is emitted, at its own arrival instant (due = src)
+  /\ \A ix \in 1..n : par.m[ix].k = "S" => ix \in EmSet
   /\ SrcTermPasses
 
 \* C16 sample: at each sampler tick the latest element not yet sampled.  Ticks: the period's multiples, or the
@@ -576,9 +597,22 @@ EchoDelayMust(dd) == IF \A jx \in 1..n : src[jx] < echoAt
                             [] OTHER -> NEVER
                      ELSE NEVER
 EchoDebounceMust == EchoDelayMust(D)
-EchoThrottleMust == IF par.m[Echo].k \in {"N", "C"} THEN EchoDelayMust(par.m[Echo].t) ELSE NEVER
+EchoThrottleMust == CASE par.m[Echo].k \in {"N", "C"} -> EchoDelayMust(par.m[Echo].t)
+                      [] par.m[Echo].k = "S" -> echoAt          \* fires inside the push itself: nothing can come first
+                      [] OTHER -> NEVER
+\* delay: the sink, inside the delivery of its fbk-th element (instant te = src[fbk] + D), terminates the source.
+\* "delivers an error immediately, dropping pending elements": the error is the very next thing the sink sees, at te -
+\* not even an element due at te itself (still pending: its delivery had not started) comes between.  A completion is
+\* shifted like everything else: the elements that had arrived by te (at te itself: either) at their own due times, C at te + D.
+EchoDelayOK == /\ echoAt = src[fbk] + D
+               /\ \A h \in 1..mN : OutN[h].i = h /\ OutN[h].t = src[h] + D
+               /\ IF fbx = "E" THEN mN = fbk /\ TermAt("E", echoAt) /\ LastOut.e = "src"
+                  ELSE /\ mN >= fbk /\ mN <= n
+                       /\ \A ix \in 1..n : (src[ix] < echoAt => ix <= mN) /\ (ix <= mN => src[ix] <= echoAt)
+                       /\ IF echoAt + D <= Hz THEN TermAt("C", echoAt + D) ELSE NoTerm
 EchoOK == (Final /\ dsp = NEVER /\ echoAt >= 0) =>
             /\ Once
+            /\ (op \in DelayOps => EchoDelayOK)
             /\ (op \in {"sample", "sample_obs"} =>
                  /\ \A u \in TicksMust : EchoSampleMust(u) => (Echo \in EmSet /\ TimeOf(Echo) = u)
                  /\ (Echo \in EmSet => EchoSampleMay(TimeOf(Echo))))
@@ -591,6 +625,6 @@ EchoOK == (Final /\ dsp = NEVER /\ echoAt >= 0) =>
 
 (* ---- export ------------------------------------------------------------------------------------------ *)
 Export == Final => PrintT(ToJson([scn |-> [op |-> op, par |-> par, src |-> src, term |-> term, tT |-> tT, hot |-> hot,
-                                           aux |-> aux, aterm |-> aterm, aT |-> aT, dsp |-> dsp, fbk |-> fbk],
+                                           aux |-> aux, aterm |-> aterm, aT |-> aT, dsp |-> dsp, fbk |-> fbk, fbx |-> fbx],
                                   obs |-> [out |-> out, subAt |-> subAt, unsub |-> unsub, swAt |-> swAt, echoAt |-> echoAt, amb |-> amb]]))
 ================================================================================
